@@ -191,27 +191,35 @@ Definition mid_ZZ (E : I.type) : list Z :=
   end.
 Definition b2z (b : bool) : Z := if b then 1%Z else 0%Z.
 
-Definition eval_cases (support_from : nat) (encl : nat -> I.type) (chk : nat -> Q -> bool)
+Definition eval_cases (support_from : nat) (encl : nat -> Q -> I.type) (chk : nat -> Q -> bool)
            (cases : list (nat * Q)) : list Z :=
   flat_map (fun kx => let k := fst kx in
                       if Nat.ltb k support_from then [(-1)%Z; 0%Z; 0%Z]
-                      else b2z (chk k (snd kx)) :: mid_ZZ (encl k)) cases.
+                      else b2z (chk k (snd kx)) :: mid_ZZ (encl k (snd kx))) cases.
+(* reported model value when several truncation indices are admissible: the enclosure the float
+   matches if there is one (the float comparison at the break point is an oracle), else the first *)
+Definition pick_encl (Es : list I.type) (x : Q) : I.type :=
+  match find (near_b (iQ x)) Es with
+  | Some E => E
+  | None => hd I.nai Es
+  end.
 
 Definition c19_eval (law : Z) (params : list Q) (cases : list (nat * Q)) : list Z :=
   let p0 := nth 0 params 0%Q in
   let p1 := nth 1 params 0%Q in
   match law with
   | 0%Z => if valid_exponential p0
-           then [0; 0; 0]%Z ++ eval_cases 0 (i_exponential (iQ p0)) (check_exponential p0) cases
+           then [0; 0; 0]%Z ++ eval_cases 0 (fun k _ => i_exponential (iQ p0) k) (check_exponential p0) cases
            else [4; 0; 0]%Z
   | 1%Z => if valid_poisson p0
-           then [0; 0; 0]%Z ++ eval_cases 0 (i_poisson (iQ p0)) (check_poisson p0) cases
+           then [0; 0; 0]%Z ++ eval_cases 0 (fun k _ => i_poisson (iQ p0) k) (check_poisson p0) cases
            else [4; 0; 0]%Z
   | 2%Z => if valid_power_law p0 then
              match cands_power_law p0 with
              | Some ((Khi, N) :: rest) =>
                  [0%Z; Z.of_nat (fst (last rest (Khi, N))); Z.of_nat Khi]
-                 ++ eval_cases 1 (i_power_law (iQ p0) N) (check_power_law p0 ((Khi, N) :: rest)) cases
+                 ++ eval_cases 1 (fun k => pick_encl (map (fun c => i_power_law (iQ p0) (snd c) k) ((Khi, N) :: rest)))
+                              (check_power_law p0 ((Khi, N) :: rest)) cases
              | _ => [2; 0; 0]%Z
              end
            else [4; 0; 0]%Z
@@ -219,7 +227,8 @@ Definition c19_eval (law : Z) (params : list Q) (cases : list (nat * Q)) : list 
              match cands_cutoff p0 p1 with
              | Some ((Khi, N) :: rest) =>
                  [0%Z; Z.of_nat (fst (last rest (Khi, N))); Z.of_nat Khi]
-                 ++ eval_cases 1 (i_cutoff (iQ p0) (iQ p1) N) (check_cutoff p0 p1 ((Khi, N) :: rest)) cases
+                 ++ eval_cases 1 (fun k => pick_encl (map (fun c => i_cutoff (iQ p0) (iQ p1) (snd c) k) ((Khi, N) :: rest)))
+                              (check_cutoff p0 p1 ((Khi, N) :: rest)) cases
              | _ => [2; 0; 0]%Z
              end
            else [4; 0; 0]%Z
